@@ -49,6 +49,10 @@ class HarnessFault(RuntimeError):
     pass
 
 
+class InjectedTimeout(TimeoutError):
+    """a failure whose str() is empty"""
+
+
 class InjectedFault(OSError):
     pass
 
@@ -527,6 +531,10 @@ class _GatedPluginBase:
         await ds.async_gate((r, "wBegin", wid), dict(base, ev="wBegin"))
         await ds.async_gate((r, "wEnd", wid), dict(base, ev="wFail" if faulty else "wEnd"))
         if faulty:
+            # real plugins fail both ways: with a message, and with message-less exceptions (asyncio.TimeoutError(),
+            # MemoryError(), a bare assert) whose str() is "" - error relaying must not depend on a non-empty text
+            if (r + wid + len(data)) % 2 == 1:
+                raise InjectedTimeout()
             raise InjectedFault(f"injected failure of write #{wid} on rank {r}")
         job.files[p] = data
 
